@@ -44,6 +44,8 @@ structure JState where
   committed : List CRec := []
   receipts : List RcptRec := []
   nodes : List NodeJ := [{}, {}, {}]
+  /-- digest id ↦ the (c,k,p) of the commit op during which the entry first appeared anywhere -/
+  bindings : List (Nat × Nat × Nat × Nat) := []
 deriving Repr, Inhabited
 
 def JState.nodeJ (j : JState) (i : Nat) : NodeJ := if i = 0 then {} else (j.nodes[i - 1]?).getD {}
@@ -167,8 +169,23 @@ def JState.update1 (j : JState) (op : Op) (cur : Obs) : JState :=
       | _, _, _ => { j with prev := cur }
     | _ => { j with prev := cur }
 
+/-- bind every not yet bound entry of command `c` (in any store) to this commit's (c,k,p) -/
+def bindNew (bs : List (Nat × Nat × Nat × Nat)) (cur : Obs) (c k p : Nat) : List (Nat × Nat × Nat × Nat) :=
+  let cs := toString c
+  cur.stores.foldl (fun bs st =>
+    st.entries.foldl (fun bs e =>
+      if e.cmd == cs && !bs.any (fun b => b.1 == e.dig) then bs ++ [(e.dig, c, k, p)] else bs) bs) bs
+
+def JState.bindingOf (j : JState) (dig : Nat) : Option (Nat × Nat × Nat) :=
+  match j.bindings.find? (fun b => b.1 == dig) with
+  | some b => some b.2
+  | none => none
+
 /-- bookkeeping after one op (cur = the implementation's observation of it) -/
 def JState.update (j : JState) (op : Op) (cur : Obs) : JState :=
+  let j := match op with
+    | .commit _ _ c k p _ => if cur.res == ["bad-op"] then j else { j with bindings := bindNew j.bindings cur c k p }
+    | _ => j
   let j' := j.update1 op cur
   if cur.res == ["bad-op"] then j'
   else { j' with committed := addRecs j'.committed (watermarkRecs cur (votersUpTo cur.stores.length)) }
